@@ -16,6 +16,7 @@ type GenOpts struct {
 	XTest     bool // allow an external test package
 	Aliases   bool // explicit import aliases in some files
 	Rich      bool // several annotation kinds on the same type
+	SameName  bool // prefer packages whose files bind one import name to different packages, and types that @implements through it
 	Islands   bool // a third of the packages import nothing: several packages without a dependency between them (analysed concurrently by the drivers)
 	Twins     bool // prefer programs with the two same-named packages (and same-named interfaces), all packages importable by all later ones
 }
@@ -274,7 +275,11 @@ func (g *gen) genPkg(pkg *Pkg, earlier []*Pkg) {
 			}
 		}
 		for _, td := range types {
-			if td.Kind == KIface || td.Elem != nil || len(ifaces) == 0 || !g.chance("implements", 35) {
+			implPct := 35
+			if g.o.SameName {
+				implPct = 75
+			}
+			if td.Kind == KIface || td.Elem != nil || len(ifaces) == 0 || !g.chance("implements", implPct) {
 				continue
 			}
 			it := ifaces[g.pick("implIface", len(ifaces))]
@@ -546,9 +551,29 @@ func (g *gen) genPkg(pkg *Pkg, earlier []*Pkg) {
 		}
 	}
 	// the same import name bound to different packages in different files of the package
-	if g.o.Aliases && len(earlier) >= 2 && len(files) >= 2 && g.chance("sharedAlias", 30) {
+	sharedPct := 30
+	if g.o.SameName {
+		sharedPct = 85
+	}
+	if g.o.Aliases && len(earlier) >= 2 && len(files) >= 2 && g.chance("sharedAlias", sharedPct) {
 		for _, f := range files {
-			f.Aliases[earlier[g.pick("sharedAliasPkg", len(earlier))]] = "dep"
+			// prefer a package that an @implements annotation of this file names: the
+			// annotation is then spelled dep.I, and dep means something else next door
+			var named []*Pkg
+			for _, d := range f.Decls {
+				if td, ok := d.(*TypeDecl); ok {
+					for _, ir := range td.ImplRefs {
+						if ir.Raw == "" && ir.Iface != nil && ir.Iface.Pkg != pkg {
+							named = append(named, ir.Iface.Pkg)
+						}
+					}
+				}
+			}
+			if len(named) > 0 && g.chance("sharedAliasOnImplements", 80) {
+				f.Aliases[named[g.pick("sharedAliasImplPkg", len(named))]] = "dep"
+			} else {
+				f.Aliases[earlier[g.pick("sharedAliasPkg", len(earlier))]] = "dep"
+			}
 		}
 	}
 	pkg.Files = files
